@@ -2,7 +2,7 @@
    Partial: that dropping a Context drops the senders it stores (message queue, awaiting_ack,
    subscriptions) and that a dropped sender resolves its receiver is futures / Drop behaviour,
    assumed by the model (drop_ctx, cancel, close_stream_sender) and exercised by the harness. *)
-From Poster Require Import Model.Sim Proofs.ClientP Proofs.SimInvP Proofs.OwnP.
+From Poster Require Import Model.Sim Proofs.ClientP Proofs.SimInvP Proofs.OwnP Proofs.StreamOwnP.
 
 (* an operation waiting on a oneshot whose sender was dropped completes ContextExited at its
    next poll *)
@@ -63,3 +63,43 @@ Example C14_nonvacuous :
   let s := final_state sys_init evs in
   ctx_alive s = false /\ snd (poll_op s 0) = [ODone 0 RErrExited] /\ snd (poll_op s 1) = [ODone 1 RErrExited].
 Proof. vm_compute. auto. Qed.
+
+(* ---- streams, every history ------------------------------------------------------------------------------------------
+   The same for subscription streams (Proofs/StreamOwnP.v). held s j: the sender of stream j is registered under a
+   subscription identifier in the Context, or travels in a subscribe request still in the Context's queue. *)
+Check (eq_refl : held = fun s j =>
+  (exists sid, In (sid, j) (subs (c s))) \/ (exists a sid pkt, In (MSub j a sid pkt) (msgq s))).
+
+(* in every reachable state a stream whose sender is alive has that sender held by the live Context *)
+Theorem C14_stream_ownership : forall (evs : list event) (j : N) (st : strm), let s := final_state sys_init evs in
+  alookup j (streams s) = Some st -> st_sender st = true -> ctx_alive s = true /\ held s j.
+Proof. exact stream_ownership. Qed.
+Print Assumptions C14_stream_ownership.
+
+(* drop(Context) drops every stream sender: whatever the history before it *)
+Theorem C14_drop_closes_streams : forall (evs : list event) (j : N) (st : strm),
+  let s := drop_ctx (final_state sys_init evs) in
+  alookup j (streams s) = Some st -> st_sender st = false.
+Proof. exact drop_ctx_closes_streams. Qed.
+Print Assumptions C14_drop_closes_streams.
+
+(* hence: in every history, once the Context is gone, no poll of any stream returns Pending - with C14_streams it
+   yields what is buffered, then ends *)
+Theorem C14_stream_no_hang : forall (evs : list event) (j : N), let s := final_state sys_init evs in
+  ctx_alive s = false -> snd (poll_stream s j) <> [ONone j].
+Proof. exact stream_no_hang. Qed.
+Print Assumptions C14_stream_no_hang.
+
+(* a subscription stream with one message buffered when the Context is dropped: the message, then the end *)
+Example C14_stream_nonvacuous :
+  let evs := [EConnect (Build_connect_opts [99] 0 None None None None None None None None [] 0 false false
+                          None None None None None None [] None None None None);
+              EDeliver [32; 3; 0; 0; 0]; ERun;
+              EStart 0 0 (OSub (Build_subscribe_opts [Build_sub_filter [97] 0 false false 0] []));
+              EPoll 0; EDeliver [144; 4; 0; 1; 0; 0]; EPoll 0; EToStream 0;
+              EDeliver [48; 8; 0; 1; 97; 2; 11; 1; 120; 121]; EDropCtx] in
+  let s := final_state sys_init evs in
+  ctx_alive s = false /\
+  (exists p, snd (poll_stream s 0) = [OItem 0 p]) /\
+  snd (poll_stream (fst (poll_stream s 0)) 0) = [OEnd 0].
+Proof. vm_compute. split; [reflexivity|]. split; [eexists; reflexivity|reflexivity]. Qed.
